@@ -782,6 +782,12 @@ class Repository:
                 contents = self._get_cached(path)
             except FileNotFoundError:
                 pass
+            else:
+                # Do not trust the cache blindly: an interrupted write (or anything
+                # else) may have left different bytes under this name
+                if self.props.hash_digest(contents) != expected_digest:
+                    logger.info('Ignoring invalid cached copy of %s', path)
+                    contents = None
 
         if contents is None:
             contents = self._download_threadsafe(path, loop=loop)
